@@ -134,7 +134,7 @@ fn opti(o: Option<usize>) -> Vec<Float> {
 /// inputs: a b c p q r a2 b2 c2 (27 floats).
 /// output: class; then (class = 0 only) area 1, normal 2..5, circumradius 5, circumcenter 6..9, aspect 9, centroid 10..13,
 /// test_point 13, edge-from-points 14..16, edge-from-segment 16..18, has_vertex 18, compare 19..21, vertex(0..=3) 21..37,
-/// edge lengths 37..40, segment(3) is Err 40
+/// edge lengths 37..40, segment(3) is Err 40, bounds() min / max 41..47
 pub fn tri_apply(i: &[Float]) -> Vec<Float> {
     let (a, b, c) = (p3(&i[0..3]), p3(&i[3..6]), p3(&i[6..9]));
     let (p, q, r) = (p3(&i[9..12]), p3(&i[12..15]), p3(&i[15..18]));
@@ -161,6 +161,9 @@ pub fn tri_apply(i: &[Float]) -> Vec<Float> {
     o.push(b2f(t.segment(3).is_err() && t.segment(0).unwrap().length() == t.ab().length()
         && t.segment(1).unwrap().length() == t.bc().length() && t.segment(2).unwrap().length() == t.ca().length()
         && t.a() == a && t.b() == b && t.c() == c));
+    // Triangle3D::bounds(): min, max (Model/Triangle.v: tri_bounds)
+    let bb = t.bounds();
+    o.extend(pv(bb.min)); o.extend(pv(bb.max));
     o
 }
 
